@@ -12,6 +12,7 @@ import copy
 import itertools
 import json
 import os
+import struct
 import subprocess
 
 from lib.vcommon import PY, VERIF, coq_list, coq_str, impl_env
@@ -43,12 +44,27 @@ def bs(l):
     return "[" + "; ".join("true" if b else "false" for b in l) + "]"
 
 
+def fb(x):
+    """IEEE-754 bit pattern (signed 64-bit) of a coordinate: the Coq side compares vertex rows bit for bit"""
+    return struct.unpack("<q", struct.pack("<d", float(x)))[0]
+
+
 def vt(r):
-    return "(%s, %s, %s, %s)" % tuple(z(int(x)) for x in r)
+    """a vertex row given as VALUES (harness input)"""
+    return "(%s, %s, %s, %s)" % tuple(z(fb(x)) for x in r)
 
 
 def vts(rows):
     return "[" + "; ".join(vt(r) for r in rows) + "]"
+
+
+def vt_raw(r):
+    """a vertex row already given as bit patterns (implementation output)"""
+    return "(%s, %s, %s, %s)" % tuple(z(int(x)) for x in r)
+
+
+def vts_raw(rows):
+    return "[" + "; ".join(vt_raw(r) for r in rows) + "]"
 
 
 def ostr(s):
@@ -62,14 +78,14 @@ def morph_term(m):
 
 
 def seg_term(s):
-    return "(Build_segment vtx %s %s %s %s)" % (z(s[0]), vt(s[1]), vt(s[2]), "None" if s[3] is None else "(Some %s)" % z(s[3]))
+    return "(Build_segment vtx %s %s %s %s)" % (z(s[0]), vt_raw(s[1]), vt_raw(s[2]), "None" if s[3] is None else "(Some %s)" % z(s[3]))
 
 
 def rt_term(o):
     r = o["r"]
     if r == "ok":
         return "(RtOk vtx [%s])" % "; ".join(
-            "(Build_amorph vtx None %s %s %s)" % (vts(m["verts"]), zs(m["conn"]), bs(m["mask"])) for m in o["loaded"])
+            "(Build_amorph vtx None %s %s %s)" % (vts_raw(m["verts"]), zs(m["conn"]), bs(m["mask"])) for m in o["loaded"])
     if r == "NodeError":
         return "(RtNodeError vtx)"
     if r == "UnboundLocalError":
@@ -149,8 +165,79 @@ def depth_of(conn, v):
     return d
 
 
+# value classes of coordinates / diameters (all exactly representable; compared bit for bit)
+SPECIAL = [0.0, -0.0, 5e-324, -5e-324, 2.2250738585072014e-308, 1e-300, 1e308, -1e308, 1.7976931348623157e308,
+           0.5, -2.75, 3.0, -7.0, 1e-3, 123456789.125, 4503599627370497.0]
+
+
 def rand_verts(rng, n):
-    return [[rng.randrange(-50, 51), rng.randrange(-50, 51), rng.randrange(-50, 51), rng.randrange(1, 20)] for _ in range(n)]
+    """vertex rows of one of several flavours: Python ints (-> integer-dtype arrays; diameter 0 included),
+    floats incl. signed zeros / denormals / huge values, integer-valued floats, mixed"""
+    flavour = rng.choice(["int", "int", "int0", "float", "special", "mixed"])
+    rows = []
+    for _ in range(n):
+        if flavour == "int":
+            r = [rng.randrange(-50, 51), rng.randrange(-50, 51), rng.randrange(-50, 51), rng.randrange(1, 20)]
+        elif flavour == "int0":
+            r = [rng.randrange(-3, 4), rng.randrange(-3, 4), rng.randrange(-3, 4), rng.choice([0, 0, 1, 2])]
+        elif flavour == "float":
+            r = [rng.randrange(-400, 401) / 8.0 for _ in range(3)] + [rng.choice([0.0, -0.0, 0.25, 1.5, 3.0])]
+        elif flavour == "special":
+            r = [rng.choice(SPECIAL) for _ in range(4)]
+        else:
+            r = [rng.choice([rng.randrange(-9, 10), float(rng.randrange(-9, 10)), rng.choice(SPECIAL)]) for _ in range(4)]
+        rows.append(r)
+    return rows
+
+
+def value_class_cases():
+    """deterministic (both tiers): diameter 0.0 / -0.0 / integer 0 at a leaf, an internal vertex, the root, everywhere;
+    signed-zero coordinates, denormals, huge magnitudes, integer-valued floats, integer arrays; each built from lists,
+    from ndarrays, and with the arrays assigned after construction"""
+    conn = [-1, 0, 1, 1, 0]          # root 0, internal 1, leaves 2 3 4
+    base = [[1.5, -2.0, 0.25, 2.0], [3.0, 4.5, -1.0, 1.25], [5.0, 6.0, 7.0, 0.75], [-8.0, 9.5, 10.0, 0.5], [11.0, -12.0, 13.0, 1.0]]
+    ibase = [[1, -2, 3, 2], [3, 4, -1, 1], [5, 6, 7, 3], [-8, 9, 10, 5], [11, -12, 13, 1]]
+    out = []
+
+    def add(name, verts):
+        for nd, assign in ((False, None), (True, None), (True, "all")):
+            c = {"verts": [list(r) for r in verts], "conn": list(conn), "mask": None, "kind": "value:" + name, "plain": True,
+                 "nd": nd}
+            if assign:
+                c["assign"] = assign
+            out.append(c)
+
+    for zname, zero in (("0.0", 0.0), ("-0.0", -0.0)):
+        for where, idx in (("leaf", [2]), ("internal", [1]), ("root", [0]), ("all", [0, 1, 2, 3, 4]), ("leaf+internal", [1, 3])):
+            v = [list(r) for r in base]
+            for i in idx:
+                v[i][3] = zero
+            add("diameter%s@%s" % (zname, where), v)
+    for where, idx in (("leaf", [4]), ("internal", [1]), ("root", [0]), ("all", [0, 1, 2, 3, 4])):
+        v = [list(r) for r in ibase]
+        for i in idx:
+            v[i][3] = 0
+        add("int-diameter0@%s" % where, v)
+    add("int-array", ibase)
+    add("integer-valued-floats", [[float(x) for x in r] for r in ibase])
+    v = [list(r) for r in base]
+    v[2][0], v[2][1], v[1][2], v[0][0], v[4][1] = 0.0, -0.0, -0.0, -0.0, 0.0
+    add("signed-zero-coordinates", v)
+    add("all-zero", [[0.0, 0.0, 0.0, 0.0] for _ in range(5)])
+    add("all-negative-zero", [[-0.0, -0.0, -0.0, -0.0] for _ in range(5)])
+    v = [list(r) for r in base]
+    v[2] = [5e-324, -5e-324, 2.2250738585072014e-308, 5e-324]
+    v[1] = [-2.2250738585072014e-308, 1e-310, 5e-324, 1e-320]
+    add("denormals", v)
+    v = [list(r) for r in base]
+    v[3] = [1e308, -1e308, 1.7976931348623157e308, 1e300]
+    v[1] = [-1.7976931348623157e308, 4503599627370497.0, 9007199254740992.0, 1e200]
+    add("huge-magnitudes", v)
+    v = [list(r) for r in base]
+    v[2] = [1, 2.5, -0.0, 0]
+    v[0] = [0, 0, 0, 1]
+    add("mixed-int-float-rows", v)
+    return out
 
 
 NAMES = ["a", "b", "B", "a10", "a2", "_z", "Z1", "cell_1", "cell_2", "m", "Morphology", "Morphology0", "Morphology1",
@@ -218,6 +305,7 @@ def gen_views(ck):
         {"verts": [[0, 0, 0, 1], [1, 0, 0, 2], [2, 0, 0, 3], [3, 0, 0, 4]], "conn": [-1, 0, 1, 1], "mask": None,
          "kind": "stored:convert", "plain": True},
     ]
+    cases += value_class_cases()
     for n in range(1, ck.n(5, 6)):
         for conn in all_trees_rooted_at_0(n):
             cases.append({"verts": rand_verts(ck.rng, n), "conn": conn, "mask": None, "kind": "exhaustive", "plain": True})
@@ -338,6 +426,10 @@ def _gen_doc(ck, nc, nm, distinct):
 
 def gen_morphs(ck):
     out = [{"verts": [], "conn": [], "mask": None, "id": None, "kind": "single:empty"}]
+    for c in value_class_cases():
+        if not c.get("assign"):
+            out.append({"verts": c["verts"], "conn": c["conn"], "mask": None, "id": None, "nd": c["nd"],
+                        "kind": "single:" + c["kind"]})
     for _ in range(ck.n(30, 300)):
         m = gen_morph(ck, nmax=ck.rng.choice([8, 60, 300]))
         m["kind"] = "single"
@@ -436,7 +528,7 @@ def loaded_view_rows(ck, o, origin, rows, checks):
     if o.get("r") != "ok":
         return
     for k, m in enumerate(o["loaded"]):
-        c = {"verts": m["verts"], "conn": m["conn"], "mask": m["mask"], "kind": "loaded", "plain": loaded_plain(m),
+        c = {"verts": m["verts"], "conn": m["conn"], "mask": m["mask"], "kind": "loaded", "plain": loaded_plain(m), "bits": True,
              "origin": origin, "loaded_index": k}
         if m.get("len") is None:
             ck.disagree("segments_view (loaded morphology)", c, "a segment view", m.get("view_error"))
@@ -444,7 +536,7 @@ def loaded_view_rows(ck, o, origin, rows, checks):
                        expected="one segment per non-root vertex", observed=m.get("view_error"))
             continue
         ov = {"r": "ok", "len": m["len"], "segs": m["view"], "conv": m["conv"]}
-        mt = "(Build_amorph vtx None %s %s %s)" % (vts(m["verts"]), zs(m["conn"]), bs(m["mask"]))
+        mt = "(Build_amorph vtx None %s %s %s)" % (vts_raw(m["verts"]), zs(m["conn"]), bs(m["mask"]))
         view = "[%s]" % "; ".join("None" if x is None else "(Some %s)" % seg_term(x) for x in m["view"])
         conv = "None" if m["conv"] == "IndexError" else "(Some [%s])" % "; ".join(seg_term(x) for x in m["conv"])
         rows.append((c, ov, "(%s, %s, %s)" % (mt, z(m["len"]), view), "(%s, %s)" % (mt, conv),
@@ -550,7 +642,9 @@ def check_to_root(ck, c, o):
 
 
 def expected_segments(c):
-    v, conn = c["verts"], c["conn"]
+    """(id, vertex row, parent row, parent) per non-root vertex; rows as IEEE-754 bit patterns (what the driver reports)"""
+    conn = c["conn"]
+    v = c["verts"] if c.get("bits") else [[fb(x) for x in r] for r in c["verts"]]
     return [[k, list(v[k]), list(v[conn[k]]), (conn[k] if k > 1 else None)] for k in range(1, len(conn))]
 
 
@@ -560,9 +654,27 @@ def check_view(ck, c, o):
     inp = {"vertices": c["verts"], "connectivity": c["conn"], "physical_mask": c["mask"]}
     exp = expected_segments(c)
     ok = True
+
+    def first_diff(segs):
+        """first segment whose id / end points differ, decoded from the bit patterns"""
+        if not isinstance(segs, list):
+            return segs
+        dec = lambda r: [repr(struct.unpack("<d", struct.pack("<q", int(b)))[0]) for b in r]  # noqa: E731
+        for k, e in enumerate(exp):
+            g = segs[k] if k < len(segs) else None
+            if g is None or g[:3] != e[:3]:
+                return {"segment_index": k, "vertex": e[0],
+                        "expected_end_points": [dec(e[1]), dec(e[2])],
+                        "observed": None if g is None else {"id": g[0], "end_points": [dec(g[1]), dec(g[2])]}}
+        return None if len(segs) == len(exp) else {"expected_segments": len(exp), "observed_segments": len(segs)}
+
+    if c.get("bits"):
+        inp["note"] = "morphology returned by ArrayMorphLoader.load (%s); vertex rows are IEEE-754 bit patterns" % c.get("origin")
     if o.get("r") != "ok" or o["len"] != len(exp) or [s[:3] if s else None for s in o["segs"]] != [s[:3] for s in exp]:
-        ck.witness(K_VIEW, "segment view is not one segment per non-root vertex with end points (vertex, parent vertex)",
-                   input=inp, expected=exp, observed=o)
+        ck.witness(K_VIEW, "segment view is not one segment per non-root vertex with end points equal (bit for bit) to the "
+                           "vertex row and the parent vertex row",
+                   input=inp, expected={"first_difference": first_diff(o.get("segs")), "segments_as_bit_patterns": exp},
+                   observed=o)
         ok = False
     if o.get("r") == "ok" and (o["conv"] == "IndexError" or [s[:3] for s in o["conv"]] != [s[:3] for s in exp]
                                or o["conv"] != o["segs"]):
